@@ -128,7 +128,9 @@ def _arr(x):
 # ---------------------------------------------------------------------------
 EPAT = {"distinct": [0.0, 100.0, 250.0, 420.0, 530.0],
         "degenerate": [0.0, 0.0, 250.0, 250.0, 530.0],
-        "near": [0.0, 1.0, 250.0, 251.0, 530.0]}
+        "near": [0.0, 1.0, 250.0, 251.0, 530.0],
+        # site energies NOT in ascending order (the eigenbasis is a permutation of the sites)
+        "unsorted": [250.0, 0.0, 100.0, 530.0, 420.0]}
 
 
 def _energies(case):
@@ -157,6 +159,10 @@ def _bath(case):
          "T": float(case["T"])}
     if case.get("matsubara") is not None:
         b["matsubara"] = int(case["matsubara"])
+    if case.get("bathpat") == "sitewise":
+        # a different bath on every site (so that a permutation of the sites is visible)
+        return [dict(b, reorg=float(lam) * (1.0 + 0.6 * i), cortime=float(tau) * (1.0 + 0.4 * i))
+                for i in range(case["n"])]
     return b
 
 
@@ -778,7 +784,15 @@ def td_cases(tier):
                             or c["ftype"] != "OverdampedBrownian"):
             return False                   # 3 sites: one bath type and (lambda, tau_c) pair
         return True
-    return product(dom, ok)
+    out = product(dom, ok)
+    # unsorted site energies with a different bath on every site, uncoupled and coupled
+    extra = {"sec": ["td"], "route": ["protocol"] if tier == "quick" else ["protocol", "aggregate"],
+             "n": [2, 3], "epat": ["unsorted"], "Jpat": ["none", "chain"],
+             "ftype": ["OverdampedBrownian"], "lam_tau": [[20.0, 50.0]], "T": [300.0],
+             "cutoff": [None], "nt": [40 if tier == "quick" else 60], "dt": [1.0],
+             "bathpat": ["sitewise"]}
+    out += product(extra, _sys_ok)
+    return out
 
 
 def dephasing_cases(tier):
